@@ -99,7 +99,8 @@ CHECKS = {
               "distinct = (profile, solicited/unsolicited, fragment number, follow-up action) tuples"),
         runs=[dict(check="c13", scale=10, timeout_s=900)],
         required=["iin_checked", "class_bit_ok", "overflow_bit_set_ok", "restart_bit_ok", "app_bit_set_ok", "broadcast_bit_ok", "restart_writes", "broadcasts", "overflow_discarded_carried_event",
-                  "event_buffer_audits", "event_buffer_audits_at_clear_written", "event_buffer_audits_at_events_info", "reconnect_by_disable"],
+                  "event_buffer_audits", "event_buffer_audits_at_clear_written", "event_buffer_audits_at_events_info", "reconnect_by_disable",
+                  "broadcast_enable_disable", "broadcast_restart_write"],
         thorough_scale=30.0,
         abnormal_exit_is_violation=True,
         assumptions=HARNESS_TRUST,
